@@ -346,25 +346,40 @@ def rule_loop_coverage(ctx, cfg='prod-all', fns=LOOP_FNS, follow_prefix=None):
                 yield Ob('RF-P', '%s#covers:%s' % (fn, s.desc), cover, 'the loop visits every element of the vector it folds (no message skipped)', b.span,
                          fact={'range': (tfmt(start), tfmt(end)), 'vector_len': tfmt(ln)}, expected='0 .. len')
         # iterator forms over slice / Vec parameters
+        starts = []
         for bi, t in b.calls():
             cal = t.get('callee') or ''
-            if cal not in ITER_SOURCES or not t['args'] or t['args'][0]['k'] not in ('copy', 'move'):
-                continue
-            root, path = fd.resolve_place(t['args'][0]['pl'])
-            if not fd.is_param(root):
-                continue
-            ty = b.local_ty(root)
-            if 'Range<' in b.local_ty(t['args'][0]['pl']['l']):
-                continue
-            d = zf.desc_place(t['args'][0]['pl'])
-            if d[0] != 'cont':
-                continue          # a sub-slice: judged by the index rules
-            name = b.local_name(root) + ''.join('.' + x for x in path)
-            ln = zf.len_of_desc(d)
+            if cal in ITER_SOURCES and t['args'] and t['args'][0]['k'] in ('copy', 'move'):
+                root, path = fd.resolve_place(t['args'][0]['pl'])
+                if not fd.is_param(root) or 'Range<' in b.local_ty(t['args'][0]['pl']['l']):
+                    continue
+                d = zf.desc_place(t['args'][0]['pl'])
+                if d[0] != 'cont':
+                    continue          # a sub-slice: judged by the index rules
+                starts.append((b.local_name(root) + ''.join('.' + x for x in path), zf.len_of_desc(d), t, t['dst']['l'], True, 'iterated directly'))
+            elif cal in ('std::iter::Iterator::zip', 'std::iter::zip') and len(t['args']) == 2:
+                # a parameter vector handed to zip as it is (`points.iter().zip(messages)`): consumed completely iff the other side is at least as long
+                for k in (1, 0) if cal.endswith('iter::zip') else (1,):
+                    a = t['args'][k]
+                    if a['k'] not in ('copy', 'move'):
+                        continue
+                    aty = b.local_ty(a['pl']['l']).replace('&mut ', '').lstrip('&').strip()
+                    if not aty.startswith(('[', 'std::vec::Vec<')):
+                        continue
+                    root, path = fd.resolve_place(a['pl'])
+                    d = zf.desc_place(a['pl'])
+                    if not fd.is_param(root) or d[0] != 'cont':
+                        continue
+                    ln = zf.len_of_desc(d)
+                    oln = zf.iter_len(t['args'][1 - k])
+                    if ln is not None and oln is not None and zf.prove_le(ln, oln, bi):
+                        v, w = True, 'zipped with a partner of length >= len'
+                    else:
+                        v, w = None, 'zipped with a partner whose length is not provably >= len'
+                    starts.append((b.local_name(root) + ''.join('.' + x for x in path), ln, t, t['dst']['l'], v, w))
+        for name, ln, t, cur0, verdict, why in starts:
             # follow the chain: who consumes this iterator?
-            verdict = True
-            why = 'iterated directly'
-            cur = t['dst']['l']
+            cur = cur0
             for _ in range(8):
                 users = [(bj, u) for bj, u in b.calls() if any(a['k'] in ('copy', 'move') and fd.base(a['pl']['l'])[0] == fd.base(cur)[0] and not a['pl'].get('p') for a in u['args'])]
                 users = [(bj, u) for bj, u in users if u is not t]
@@ -464,6 +479,26 @@ def _normalised_before(prog, eng, body, fd, root, use_block, depth=0):
         src = ds[0][2]['rv'].get('pl') or ds[0][2]['rv'].get('op', {}).get('pl')
         if src is not None:
             return _normalised_before(prog, eng, body, fd, fd.resolve_place(src)[0], ds[0][1], depth + 1)
+    # a parameter of a private function: every caller must hand in a normalised list (the normalisation was hoisted into the entry points)
+    if depth < 3 and fd.is_param(root) and not body.j.get('pub') and body.kind != 'Closure':
+        sites = []
+        for cb in prog.bodies.values():
+            for cbi, ct in cb.calls():
+                if local_target(eng, ct) == body.path:
+                    sites.append((cb, cbi, ct))
+        if sites:
+            whys = []
+            for cb, cbi, ct in sites:
+                if root - 1 >= len(ct['args']) or ct['args'][root - 1]['k'] not in ('copy', 'move'):
+                    return False, 'argument of %s not followed' % cb.path.split('::')[-1]
+                cfd = eng.fndep(cb.path)
+                aroot = cfd.resolve_place(ct['args'][root - 1]['pl'])[0]
+                for r in _list_sources(cb, cfd, aroot):
+                    ok, why = _normalised_before(prog, eng, cb, cfd, r, cbi, depth + 1)
+                    if not ok:
+                        return False, '%s hands an index list to %s without a dominating sort + dedup' % (cb.path.split('::')[-1], body.path.split('::')[-1])
+                    whys.append(why)
+            return True, 'by every caller: ' + '; '.join(sorted(set(whys)))[:200]
     return False, 'no dominating sort + dedup'
 
 
@@ -905,19 +940,29 @@ def generator_pairings(ctx, cfg, fn):
             if po is None or po[0] not in ('idx', 'it'):
                 continue
             ozf = po[3] if po[0] == 'it' else zf
-            org = ozf.slice_origin(po[1])
-            if org is None:
-                continue
-            root, gs, ge = org
-            is_gen = _is_generator_values(ozf, root)
-            is_param_slice = root[0] == 'cont' and ozf.fd.is_param(root[1]) and not root[2] and 'G1Projective' in ozf.body.local_ty(root[1])
-            if not (is_gen or is_param_slice):
-                continue
+            if po[0] == 'it' and po[1] is not None and po[1][0] == 'iterparam':
+                # the points are the items of an iterator parameter (`points: impl IntoIterator<Item = &G1Projective>`)
+                root, gs, ge = ('cont', po[1][1], (), ''), (None, 0), None
+                is_gen, is_param_slice = False, True
+            else:
+                org = ozf.slice_origin(po[1])
+                if org is None:
+                    continue
+                root, gs, ge = org
+                is_gen = _is_generator_values(ozf, root)
+                is_param_slice = root[0] == 'cont' and ozf.fd.is_param(root[1]) and not root[2] and 'G1Projective' in ozf.body.local_ty(root[1])
+                if not (is_gen or is_param_slice):
+                    continue
             rec = {'where': '%s L%s' % (b.file(), t['line']), 'start': gs if is_gen else None, 'helper_param': root[1] if is_param_slice else None,
                    'gpos': po[2] if po[0] == 'idx' else None, 'indexed_by_list': po[0] == 'idx' and po[3], 'kind': 'other', 'mpos': None, 'same_iteration': None,
                    'mstart': None, 'fn': path}
             if so is not None and so[0] == 'call' and str(so[1]).endswith('calculate_domain'):
                 rec['kind'] = 'domain'
+            elif so is not None and so[0] == 'it' and so[1] is not None and so[1][0] == 'iterparam':
+                # the scalars are the items of an iterator the caller hands in: which list they come from is decided at the call
+                rec['kind'] = 'helper-scalars'
+                rec['scalar_param'] = so[1][1]
+                rec['same_iteration'] = (po[0] == 'it' and po[2] == so[2])
             elif so is not None and so[0] in ('idx', 'it'):
                 szf = so[3] if so[0] == 'it' else zf
                 sorg = szf.slice_origin(so[1])
@@ -953,7 +998,8 @@ def rule_generator_pairing(ctx, cfg='prod-all', fns=None):
         # helpers that receive a slice of generator points
         for bi, t in prog.bodies[fn].calls():
             tgt = local_target(eng, t)
-            if tgt and tgt in prog.bodies and tgt != fn and any('[bls12_381_plus::G1Projective]' in prog.bodies[tgt].local_ty(k) for k in range(1, prog.bodies[tgt].arg_count + 1)):
+            if tgt and tgt in prog.bodies and tgt != fn and prog.bodies[tgt].kind != 'Closure' and tgt.startswith(('bbsplus::', 'utils::')) \
+                    and any(r['helper_param'] is not None for r in generator_pairings(ctx, cfg, tgt)):
                 todo.append((tgt, (fn, t)))
         for (f, via) in todo:
             recs = generator_pairings(ctx, cfg, f)
@@ -965,8 +1011,27 @@ def rule_generator_pairing(ctx, cfg='prod-all', fns=None):
                         continue          # a slice parameter of the listed function itself: nothing to anchor the offset to
                     czf = za.zf(fn)
                     arg = via[1]['args'][r['helper_param'] - 1]
-                    org = czf.slice_origin(czf.desc_place(arg['pl'])) if arg['k'] in ('copy', 'move') else None
+                    cont = _position_container(czf, arg) if arg['k'] in ('copy', 'move') else None
+                    org = czf.slice_origin(cont) if cont is not None else None
                     start = org[1] if (org and _is_generator_values(czf, org[0])) else None
+                    if start is None and r['kind'] == 'helper-scalars':
+                        continue          # the helper is used here on a list that is not the generator list (blind generators, masks): not an H-offset question
+                if r['kind'] == 'helper-scalars' and via is not None:
+                    # helper(base, points, scalars): points[k] meets the k-th item of `scalars`; at this call the items are the values of a message list
+                    czf = za.zf(fn)
+                    sarg = via[1]['args'][r['scalar_param'] - 1]
+                    cont = _position_container(czf, sarg)
+                    sorg = czf.slice_origin(cont) if cont is not None else None
+                    sty = czf.body.local_ty(sorg[0][1]) if sorg and sorg[0][0] == 'cont' else ''
+                    if sorg and 'BBSplusMessage' in sty:
+                        n_msg += 1
+                        yield Ob('RF-M', key + ':H-offset', start == (None, 1) and sorg[1] == (None, 0),
+                                 'the generators multiplied with messages are taken from generators.values[1..] (H_i = values[i + 1])', r['where'],
+                                 fact={'generator_slice_start': tfmt(start), 'message_slice_start': tfmt(sorg[1]), 'through': f.split('::')[-1]}, expected='1 / 0')
+                        yield Ob('RF-M', key + ':position', r['same_iteration'] is True,
+                                 'message i is multiplied with the generator at the same position of the H slice', r['where'],
+                                 fact={'same_iteration': r['same_iteration'], 'through': f.split('::')[-1]}, expected='one zip')
+                    continue
                 if r['kind'] == 'domain':
                     pos = ZoneSum(start, r['gpos'])
                     yield Ob('RF-M', key + ':Q1', pos == (None, 0), 'the domain scalar multiplies generators.values[0]', r['where'],
@@ -989,6 +1054,35 @@ def rule_generator_pairing(ctx, cfg='prod-all', fns=None):
                                  'generators addressed by message position are taken from generators.values[1..]', r['where'],
                                  fact={'generator_slice_start': tfmt(start), 'index': tfmt(r['gpos'])}, expected='1')
     yield Ob('RF-M', 'crate#message-pairings', n_msg >= 3, 'generator / message products examined', '', fact=n_msg, expected='>= 3', nontrivial=False)
+
+
+def _position_container(zf, op, depth=0):
+    """the container whose k-th element becomes the k-th item of an iterator operand, through adaptors that keep positions
+    (iter / into_iter / map / copied / cloned / by_ref / inspect)"""
+    if op is None or op.get('k') not in ('copy', 'move') or depth > 10:
+        return None
+    pl = op['pl']
+    if any(q['k'] != 'deref' for q in pl.get('p', [])):
+        return None
+    ty = zf.body.local_ty(pl['l']).replace('&mut ', '').lstrip('&').strip()
+    if ty.startswith(('[', 'std::vec::Vec<')):
+        return zf.desc_place(pl)
+    d = zf.single_def(pl['l'])
+    if d is None:
+        return None
+    kind, bi, x = d
+    if kind == 'assign' and not x['dst'].get('p'):
+        rv = x['rv']
+        if rv['k'] == 'use' and rv['op']['k'] in ('copy', 'move'):
+            return _position_container(zf, rv['op'], depth + 1)
+        if rv['k'] in ('ref', 'rawptr'):
+            return _position_container(zf, {'k': 'copy', 'pl': rv['pl']}, depth + 1)
+        return None
+    if kind == 'call' and x['args'] and (x.get('callee') or '') in (
+            'core::slice::<impl [T]>::iter', 'std::iter::IntoIterator::into_iter', 'std::iter::Iterator::map', 'std::iter::Iterator::copied',
+            'std::iter::Iterator::cloned', 'std::iter::Iterator::by_ref', 'std::iter::Iterator::inspect', 'std::ops::Deref::deref', 'std::vec::Vec::<T, A>::as_slice'):
+        return _position_container(zf, x['args'][0], depth + 1)
+    return None
 
 
 def ZoneSum(a, b):
